@@ -221,7 +221,10 @@ def run(ctx: Ctx) -> None:
     sites: list[tuple[str, ast.Call]] = [("result", uploads[0])]
     for c in calls(un):
         if last_attr(c) == "write_batch" and c.args and _writer_buffer(un, c) is not None:
-            sites.append((f"write_batch({txt(c.args[0])})", c))
+            # key by where the batch comes from (`app._server._describe_batch` -> describe_batch), not by the local's spelling
+            roots = sorted(alias_roots(un, c.args[0]))
+            origin = roots[0].split("(")[0].split(".")[-1].lstrip("_") if roots else "batch"
+            sites.append((f"write_batch({origin})", c))
     pred = calls_to(ctx, un, "predict_externalize_bytes_for_batch")
     _path_checks(ctx, un, "unary", write_sites=sites, upload=uploads[0], predicts=pred, err_calls=error_write_calls(ctx, un), enforce_fi=enforce)
     # the prediction is about the batch that is uploaded
